@@ -55,6 +55,11 @@ def mk(a):
         return numpy.dtype(a["t"]).type(a["v"])
     if k == "arr":
         return numpy.array(a["v"], dtype=a["t"])
+    if k == "seq":
+        def seq(v):
+            return {"list": list, "tuple": tuple}[a["as"]](seq(x) for x in v) if isinstance(v, list) else \
+                {"int64": int, "float64": float}[a["t"]](v)
+        return seq(a["v"])
     return build(a["p"])
 
 
@@ -135,6 +140,36 @@ def gen_numeric(tier, rng):
             "complex, numpy int8..int64, uint8..uint64, float32/64 scalars, or arrays of those dtypes with shapes () .. (2,1,3) "
             "that broadcast; values chosen so that powers <=3 are exact in the carrying type; exact comparison")
 def numeric_full(inp):
+    install_poison()
+    p = build(inp["p"])
+    before = snapshot(p)
+    r = invoke(p, inp["how"])
+    want = expected(spec_model(inp["p"]), assignment(inp["p"]["names"], inp["how"]))
+    return plain_equals(r, want) or unchanged(before, p, "polynomial")
+
+
+# ------------------------------------------------------------------ array points spelled as Python sequences
+def gen_sequences(tier, rng):
+    for _ in range(count(tier, 120, 1200)):
+        p = rand_poly(rng, shape=rng.choice(PSHAPES), dtype=rng.choice(["int64", "int64", "float64"]))
+        fam = [s for s in rng.choice(FAMILIES) if s]
+        assign, some = {}, False
+        for n in p["names"]:
+            if some and rng.random() < 0.4:
+                assign[n] = rand_numeric(rng, fam + [()])
+                continue
+            t = rng.choice(["int64", "int64", "float64"])
+            assign[n] = {"k": "seq", "t": t, "as": rng.choice(["list", "tuple"]),
+                         "v": nested(rng, tuple(rng.choice(fam)), INT_POOL.get(t, FLOAT_POOL))}
+            some = True
+        yield {"p": p, "how": place(rng, p["names"], assign)}
+
+
+@check("C02", "call.sequence_points", gen_sequences, functions=("numpoly.call", "numpoly.ndpoly.__call__"),
+       note="bounded: polynomial space of call.numeric_full; at least one indeterminate is given an array point spelled as a "
+            "(nested) Python list or tuple of ints or floats, shapes (1,) .. (2,1,3), the others likewise or numbers / numpy arrays; "
+            "same oracle and exact comparison as call.numeric_full (the value of numpy.asarray(sequence) is the point)")
+def sequence_points(inp):
     install_poison()
     p = build(inp["p"])
     before = snapshot(p)
